@@ -208,3 +208,77 @@ register("C10", [
     Kernel("bbox_patch_hi", BBOX, "crop_to_bbox", _bp,
            "(fun n coord size => max (Crop.bboxLOff coord) (size - Crop.bboxROff n coord size))", _bbox_build("patch_hi"), imports=CROP),
 ])
+
+
+# -------------------------------------------------------------------------------------------------
+# PadKspace / CropKspace: the chain of calls applied to sample[kspace] (data-flow from `kspace` to the stored result)
+MT = "direct/data/mri_transforms.py"
+
+
+def _kspace_plan(cls: str, start: str = "kspace") -> list[str]:
+    from ..gen import REPO, find_function, parse_file
+
+    fn = find_function(parse_file(REPO / MT), f"{cls}.__call__")
+    cur = {start}
+    plan: list[str] = []
+    stored = False
+    for st in fn.body:
+        if not isinstance(st, ast.Assign) or len(st.targets) != 1:
+            continue
+        tgt, val = st.targets[0], st.value
+        if not isinstance(val, ast.Call):
+            continue
+        fname = ast.unparse(val.func)
+        # which argument carries the current tensor?  positional arg 0, `data_list=[x]` via cropper_args, or a dict splat
+        args = [ast.unparse(a) for a in val.args]
+        uses = any(a in cur for a in args[:1]) or any(
+            isinstance(kw.value, (ast.Name, ast.List)) and any(n.id in cur for n in ast.walk(kw.value) if isinstance(n, ast.Name))
+            for kw in val.keywords if kw.arg is not None)
+        if not uses and fname == "self.crop_func":
+            # crop_func(**cropper_args) where cropper_args["data_list"] = [<current>]
+            for st2 in fn.body:
+                if (isinstance(st2, ast.Assign) and ast.unparse(st2.targets[0]) == "cropper_args"
+                        and isinstance(st2.value, ast.Dict)):
+                    for k, v in zip(st2.value.keys, st2.value.values):
+                        if getattr(k, "value", None) == "data_list" and any(
+                                isinstance(n, ast.Name) and n.id in cur for n in ast.walk(v)):
+                            uses = True
+        if not uses:
+            continue
+        short = fname.split(".")[-1]
+        plan.append(short)
+        if isinstance(tgt, ast.Name):
+            cur = {tgt.id}
+        elif isinstance(tgt, ast.Subscript) and ast.unparse(tgt.value) == "sample":
+            key = ast.unparse(tgt.slice)
+            if key in ("self.kspace_key", "'kspace'", '"kspace"'):
+                stored = True
+                break
+            else:
+                plan.pop()      # a side product (sampling_mask crop etc.), not the k-space chain
+    if not stored:
+        raise Untranslatable(f"{cls}.__call__: result is not stored back under the k-space key")
+    return plan
+
+
+_prev_extra = EXTRA["C10"]
+
+
+def _c10_extra2():
+    text, status = _prev_extra()
+    for cls, name, fallback in (("PadKspace", "padKspacePlan", "Crop.padKspacePlan"),
+                                ("CropKspace", "cropKspacePlan", "Crop.cropKspacePlan")):
+        try:
+            plan = _kspace_plan(cls)
+            items = ", ".join(f'"{p}"' for p in plan)
+            text += (f"\n/-- translated from `{MT}`:`{cls}.__call__` (calls applied to the k-space, in order) -/\n"
+                     f"def {name}Names : List String := [{items}]\n"
+                     f"def {name} : Option (List Crop.KOp) := {name}Names.mapM Crop.KOp.ofString\n")
+            status[name] = "translated"
+        except Untranslatable as e:
+            text += f"\n/-- SKIPPED ({e}) -/\ndef {name} : Option (List Crop.KOp) := some {fallback}\n"
+            status[name] = f"skipped: {e}"
+    return text, status
+
+
+EXTRA["C10"] = _c10_extra2
